@@ -11,6 +11,8 @@ def sh(cmd, cwd=None, timeout=3000, env=None):
     return p.returncode, p.stdout
 
 def confirm(name):
+    forced = None
+    if '@' in name: name, forced = name.split('@', 1)
     dst = os.path.join(ROOT, "seeded", name); mp = os.path.join(dst, "meta.json"); meta = json.load(open(mp))
     wt = "/tmp/conf-%s" % name
     sh("git -C /repo worktree remove --force %s" % wt); shutil.rmtree(wt, ignore_errors=True)
@@ -24,10 +26,21 @@ def confirm(name):
         demos = [f for f in os.listdir(dst) if f.startswith("demo") and f.endswith(".rs")]
         dc = meta.get("demo_cmd") or ""
         def demo(tag):
+            if demos and os.path.exists(os.path.join(dst, "run_demo.sh")) and "crux_cli" in open(os.path.join(dst, "run_demo.sh")).read():
+                # the demo needs crate-private items of crux_cli: it is compiled as a unit-test module of the crate
+                modrs = os.path.join(wt, "crux_cli/src/codegen/mod.rs"); saved = open(modrs).read()
+                shutil.copy(os.path.join(dst, demos[0]), os.path.join(wt, "crux_cli/src/codegen/c20_demo.rs"))
+                open(modrs, "a").write("\n#[cfg(test)]\nmod c20_demo;\n")
+                cmd = "cargo test -p crux_cli --offline --lib -j 8 c20_demo"
+                rc, out = sh(cmd, cwd=wt, env=tdir)
+                open(modrs, "w").write(saved); os.remove(os.path.join(wt, "crux_cli/src/codegen/c20_demo.rs"))
+                passed = re.search(r"test result: ok\. [1-9]", out) is not None and "FAILED" not in out and rc == 0
+                ran.append({"step": "demo " + tag, "cmd": cmd + " (demo.rs as module codegen::c20_demo)", "passed": passed, "tail": out[-500:]})
+                return passed
             if demos:
                 text = open(os.path.join(dst, demos[0])).read()
                 m = re.search(r"-p (crux_\w+)", dc)
-                crate = m.group(1) if m else next((c for c in ("crux_http", "crux_kv", "crux_time", "crux_cli", "crux_platform") if re.search(r"\b%s::" % c, text) and c in crates), None) or \
+                crate = forced if forced else m.group(1) if m else next((c for c in ("crux_http", "crux_kv", "crux_time", "crux_cli", "crux_platform") if re.search(r"\b%s::" % c, text) and c in crates), None) or \
                         next((c for c in ("crux_http", "crux_kv", "crux_time", "crux_cli") if re.search(r"\buse %s\b|\b%s::" % (c, c), text)), None) or "crux_core"
                 feats = []
                 mf = re.search(r"--features[ =](\S+)", dc)
@@ -47,7 +60,7 @@ def confirm(name):
                 ran.append({"step": "demo " + tag, "cmd": (("RUSTFLAGS=\"%s\" " % env["RUSTFLAGS"]) if "RUSTFLAGS" in env else "") + cmd, "passed": passed, "tail": out[-500:]})
                 return passed
             if os.path.isdir(os.path.join(dst, "demo")):
-                dd = os.path.join(wt, "seed_demo_crate"); shutil.rmtree(dd, ignore_errors=True)
+                dd = os.path.join(wt, "out", "1", "demo"); shutil.rmtree(dd, ignore_errors=True); os.makedirs(os.path.dirname(dd), exist_ok=True)
                 shutil.copytree(os.path.join(dst, "demo"), dd, ignore=shutil.ignore_patterns("target"))
                 ct = os.path.join(dd, "Cargo.toml"); t = re.sub(r"/tmp/mut\d*-C\d+", wt, open(ct).read()); open(ct, "w").write(t)
                 shutil.copy(os.path.join(wt, "Cargo.lock"), os.path.join(dd, "Cargo.lock"))
